@@ -52,6 +52,9 @@ type Backend struct {
 	once    sync.Once
 
 	OnHandOver func(rec OnMsgRec) // called synchronously from OnMsg
+	InitDelay  time.Duration      // Init takes that long (the window between the end of the first synchronisation and a usable back end)
+	Strict     bool               // like the real BLS / PS back ends: a message before Init has completed is fatal (uninitialised state)
+	inited     bool
 	IgnoreCtx  bool               // KeyGen/Sign return only when released (models a back end that outlives its context)
 }
 
@@ -68,8 +71,12 @@ func (b *Backend) ClassifyMsg(msg []byte) (uint8, bool, error) {
 }
 
 func (b *Backend) Init(parties []uint16, threshold int, sendMsg func(msg []byte, isBroadcast bool, to uint16)) {
+	if b.InitDelay > 0 {
+		time.Sleep(b.InitDelay)
+	}
 	b.mu.Lock()
 	defer b.mu.Unlock()
+	b.inited = true
 	b.InitCalls++
 	b.InitParties = append([]uint16(nil), parties...)
 	b.InitThresh = threshold
@@ -79,6 +86,10 @@ func (b *Backend) Init(parties []uint16, threshold int, sendMsg func(msg []byte,
 func (b *Backend) OnMsg(msg []byte, from uint16, broadcast bool) {
 	rec := OnMsgRec{Payload: append([]byte(nil), msg...), From: from, Broadcast: broadcast}
 	b.mu.Lock()
+	if b.Strict && !b.inited {
+		b.mu.Unlock()
+		panic("scripted back end: OnMsg before Init has completed (the real back ends dereference uninitialised state here)")
+	}
 	b.Log = append(b.Log, rec)
 	h := b.OnHandOver
 	b.mu.Unlock()
